@@ -155,7 +155,7 @@ def load_known(pid):
 
 
 def save_replay(pid, viol):
-    d = os.path.join(VERIF, 'replays', pid)
+    d = os.path.join(os.environ.get('TV_REPLAY_DIR') or os.path.join(VERIF, 'replays'), pid)
     os.makedirs(d, exist_ok=True)
     body = {'property': pid, 'message': viol['message'], 'klass': viol.get('klass'), 'case': viol['case']}
     path = os.path.join(d, jhash(body['case']) + '.json')
@@ -279,8 +279,9 @@ def run_property(mod, tier, seed, jobs=None):
         'known_findings_reported': [l for l in lines],
         'harness_errors': errors[:5],
     }
-    os.makedirs(os.path.join(VERIF, 'evidence'), exist_ok=True)
-    with open(os.path.join(VERIF, 'evidence', pid + '.json'), 'w') as f:
+    evdir = os.environ.get('TV_EVIDENCE_DIR') or os.path.join(VERIF, 'evidence')
+    os.makedirs(evdir, exist_ok=True)
+    with open(os.path.join(evdir, pid + '.json'), 'w') as f:
         json.dump(ev, f, indent=1, default=str)
 
     for l in lines:
